@@ -107,6 +107,29 @@ def swizzle_masks(n, tier, tag, two_source=False):
             for _ in range(rnd.randrange(1, 4)):
                 v[rnd.randrange(n)] = rnd.randrange(R)
         out.append(v)
+    # lane-replicated family: x86 kernels special-case index patterns that repeat per 128-bit lane (shufps/pshufd/
+    # unpack/blend immediates): a g-element pattern P is replicated over the lanes with the lane offset added,
+    # I[l*g+k] = P[k] + l*g.  Drawing P over the WHOLE index range (not only in-lane values) yields both the
+    # patterns a fast path must accept and their near-misses (an element from the other lane / other operand),
+    # which is where a wrongly widened fast-path condition shows.
+    for g in (2, 4, 8, 16):
+        if g >= n:
+            continue
+        cnt = {'quick': 72, 'thorough': 3000}[tier] if g <= 4 else {'quick': 24, 'thorough': 1200}[tier]
+        space = R ** g
+        if space <= cnt:
+            pats = [list(t) for t in itertools.product(range(R), repeat=g)]
+        else:
+            pats = [[rnd.randrange(R) for _ in range(g)] for _ in range(cnt)]
+        for P in pats:
+            v = []
+            for l in range(n // g):
+                for k in range(g):
+                    x = P[k]
+                    src_y = x >= n
+                    x = (x % n + l * g) % n
+                    v.append(x + (n if src_y else 0))
+            out.append(v)
     ded = []
     seen = set()
     for v in out:
